@@ -78,13 +78,13 @@ def args_for(rng, decl):
     return lits
 
 
-def deliver(rng, name, text):
+def deliver(rng, name, text, proc_ok=True):
     """the op that hands `text` to the interface: mostly `run` with a std writer, sometimes the pass-through writer or
     `process` with read boundaries every 1..7 bytes (the selection of a handler must not depend on the way in)"""
     r = rng.random()
     if r < 0.7 or len(text) > 250:
         return f'RUN {name} std {hx(text)}'
-    if r < 0.85:
+    if r < 0.85 or not proc_ok:      # proc_ok = False: the response may exceed the 256-byte response buffer of process
         return f'RUN {name} pt {hx(text)}'
     sizes, tot = [], 0
     while tot < len(text):
@@ -123,7 +123,7 @@ def header_cases(rng, iface, tier):
             exp = ('call', entry, G.decl_errs(d)) if res == ('ok', d.id) else None
             if exp is None:
                 continue   # e.g. all-optional omitted spelling that resolves elsewhere
-            out.append(Case(deliver(rng, name, text), expected_header_oracle, {'expect': exp, 'kind': 'RUN-spelling'}))
+            out.append(Case(deliver(rng, name, text, not (d.beh == 'echo' and 'f64' in d.args)), expected_header_oracle, {'expect': exp, 'kind': 'RUN-spelling'}))
             # misplaced level separators on a valid spelling: surplus trailing, doubled or leading-doubled colon
             hdr = ':'.join(mn)
             if not hdr.startswith('*'):
@@ -182,7 +182,7 @@ def header_cases(rng, iface, tier):
                 else:
                     t2 = G.render_unit(rng, mm, q2, []) + b'\n'
                     e2 = ('undef',)
-                out.append(Case(deliver(rng, name, t2), expected_header_oracle, {'expect': e2, 'kind': 'RUN-nearmiss'}))
+                out.append(Case(deliver(rng, name, t2, not (res[0] == 'ok' and td.beh == 'echo' and 'f64' in td.args)), expected_header_oracle, {'expect': e2, 'kind': 'RUN-nearmiss'}))
     # standard commands exist exactly when requested
     for hdr, flag in (('SYST:VERS?', 'S'), ('SYSTem:VERSion?', 'S'), ('SYST:ERR?', 'E'), ('syst:err:next?', 'E'),
                       ('SYSTEM:ERROR:COUNT?', 'E'), ('SYST:ERR:COUN?', 'E')):
@@ -258,8 +258,49 @@ def fresh_cases(tier, rng, ifaces):
     return out
 
 
+def context_cases(tier, rng, ifaces):
+    """the handler a header selects, in context: (a) compound messages (the path rule of C02 decides which declaration a
+    relative header spells); (b) a valid spelling sent as a message of its own behind a message whose later unit was faulty"""
+    from .C02 import compound_cases
+    out = compound_cases(rng, ifaces, sorted(ifaces), 400 if tier == 'quick' else 6000)
+    for c in out:
+        c.meta['kind'] = 'RUN-context'
+    for name, iface in ifaces.items():
+        deep = [d for d in iface.decls if not d.args and not G.decl_errs(d) and not d.cmd.startswith('*') and len(spell.parse_decl(d.cmd)[0]) >= 2]
+        plain = [d for d in iface.decls if not d.args and not G.decl_errs(d)]
+        if not deep or not plain:
+            continue
+        for _ in range(6 if tier == 'quick' else 40):
+            d1, d2 = rng.choice(deep), rng.choice(plain)
+            sp1, q1 = rng.choice(sorted(x for x in d1.spellings if len(x[0]) >= 2))
+            sp2, q2 = rng.choice(sorted(d2.spellings))
+            if not sp2 or iface.resolve(tuple(sp1[:-1]) + ('ZZ9Q',), False)[0] != 'nonode' or iface.resolve(tuple(sp1), q1) != ('ok', d1.id) \
+                    or iface.resolve(tuple(sp2), q2) != ('ok', d2.id):
+                continue
+            bad = rng.choice([b';ZZ9Q', b';ZZ9Q 1 2', b';:ZZ9Q', b';X Y Z'])
+            text = ':'.join(sp1).encode() + (b'?' if q1 else b'') + bad + b'\n' + ':'.join(sp2).encode() + (b'?' if q2 else b'') + b'\n'
+            out.append(Case(deliver(rng, name, text), context_oracle,
+                            {'first': f'{d1.id}()', 'last': f'{d2.id}()', 'kind': 'RUN-after-faulty'}))
+    return out
+
+
+def context_oracle(line, case):
+    """first message: the deep header's handler runs, its second unit is faulty (one error, whatever its number); second message:
+    exactly the spelled declaration's handler, as if the first had never been sent"""
+    if is_crash(line):
+        return 'crash'
+    f = parse_fields(line)
+    log = log_entries(f)
+    errs = parse_list(f.get('errs', '[]'))
+    if log != [case.meta['first'], case.meta['last']]:
+        return f"expected the calls {[case.meta['first'], case.meta['last']]} (the second message is resolved from the root)"
+    if len(errs) != 1:
+        return f'expected exactly one error (the faulty unit of the first message), got {errs}'
+    return None
+
+
 def cases(tier, rng, ifaces):
-    out = []
+    out = context_cases(tier, rng, ifaces)
     for name in ifaces:
         out.append(Case(f'TREE {name}', None, {'kind': 'TREE'}))
     for name, iface in ifaces.items():
